@@ -183,6 +183,7 @@ type StepResult struct {
 	Undo     []UndoRow               `json:"undo,omitempty"`    // undo_log after a local COMMIT happened in this step
 	Dump     []fakedb.TableDump      `json:"dump,omitempty"`
 	Phase2   []tcstub.PhaseTwoResult `json:"phase2,omitempty"`
+	Locks    []string                `json:"locks,omitempty"` // db_locks: row locks held in the database at this point
 	Sub      []StepResult            `json:"sub,omitempty"`
 }
 
@@ -820,6 +821,9 @@ func (r *runner) simple(ctx context.Context, s Step, path string, res *StepResul
 		if s.Fault != nil {
 			r.srv.AddFault(*s.Fault)
 		}
+		return nil
+	case "db_locks":
+		res.Locks = append([]string{}, r.srv.HeldLocks()...)
 		return nil
 	case "db_fault_clear":
 		r.srv.ClearFaults()
